@@ -16,6 +16,7 @@ package api
 
 import (
 	"bytes"
+	"context"
 	"crypto/hmac"
 	"crypto/sha256"
 	"crypto/sha512"
@@ -34,8 +35,11 @@ import (
 	"testing"
 	"time"
 
+	"github.com/golang-jwt/jwt/v4"
 	"github.com/gotid/god/api/handler"
+	"github.com/gotid/god/api/token"
 	"github.com/gotid/god/lib/logx"
+	"github.com/gotid/god/lib/timex"
 	"verif.local/vk"
 )
 
@@ -48,11 +52,12 @@ type c04Obs struct {
 	req  *http.Request
 	body []byte
 	cb   int // unauthorized / unsigned callback invocations
+	mw   int // invocations of a middleware registered with Server.Use
 }
 
 func (o *c04Obs) reset() {
 	o.mu.Lock()
-	o.ran, o.req, o.body, o.cb = 0, nil, nil, 0
+	o.ran, o.req, o.body, o.cb, o.mw = 0, nil, nil, 0, 0
 	o.mu.Unlock()
 }
 
@@ -122,6 +127,14 @@ const c04TimeMargin = 3600 // seconds every generated time claim keeps from "now
 func c04VerifyJWT(auth string, hasAuth bool, secret, prev string, now int64) (verdict int, custom map[string]any, why string) {
 	if !hasAuth || auth == "" {
 		return c04Reject, nil, "no-authorization-header"
+	}
+	if len(auth) > 7 && !strings.HasPrefix(auth, "Bearer ") && strings.EqualFold(auth[:7], "Bearer ") {
+		// scheme names are case-insensitive in RFC 7235, "Bearer" is what RFC 6750 writes: either
+		// answer is defensible, so only a token that could not be admitted anyway is asserted
+		if v, _, _ := c04VerifyToken(auth[7:], secret, prev, now); v != c04Reject {
+			return c04Unasserted, nil, "valid-token-with-bearer-prefix-in-other-case"
+		}
+		return c04Reject, nil, "invalid-token-with-bearer-prefix-in-other-case"
 	}
 	if !strings.HasPrefix(auth, "Bearer ") {
 		// not a bearer credential. A raw JWT without the prefix is accepted by the
@@ -582,6 +595,14 @@ func c04GenJwt(r *rand.Rand, class, secret, prev string, now int64) c04JwtCase {
 		default:
 			return c04JwtCase{Class: class, Auth: "Bearer", HasHdr: true, Want: c04Reject}
 		}
+	case "bearer-prefix-other-case": // valid token: not asserted; invalid token: must be rejected
+		c04GoodTimes(r, claims, now)
+		pre := []string{"bearer ", "BEARER ", "bEaReR "}[r.Intn(3)]
+		if r.Intn(2) == 0 {
+			return c04JwtCase{Class: class, Auth: pre + c04SignedToken(r, alg, secret, claims), HasHdr: true, Want: c04Unasserted}
+		}
+		class = "bearer-prefix-other-case-invalid-token"
+		return c04JwtCase{Class: class, Auth: pre + c04SignedToken(r, alg, other, claims), HasHdr: true, Want: c04Reject}
 	case "no-bearer-prefix": // library-defined: not asserted
 		c04GoodTimes(r, claims, now)
 		return c04JwtCase{Class: class, Auth: c04SignedToken(r, alg, secret, claims), HasHdr: true, Want: c04Unasserted}
@@ -604,7 +625,7 @@ var c04InvalidClasses = []c04Weighted{
 	{"alg-mismatch", 3}, {"expired", 8}, {"not-yet-valid", 6}, {"sig-bitflip", 6}, {"sig-truncated", 3},
 	{"sig-extended", 2}, {"sig-empty", 2}, {"payload-tampered", 6}, {"header-tampered", 2},
 	{"other-tokens-signature", 3}, {"segments", 3}, {"garbage", 4}, {"no-header", 3}, {"other-scheme", 3},
-	{"iat-in-future", 2}, {"no-bearer-prefix", 1}, {"signed-non-object-payload", 1},
+	{"iat-in-future", 2}, {"no-bearer-prefix", 1}, {"bearer-prefix-other-case", 2}, {"signed-non-object-payload", 1},
 }
 
 func c04Pick(r *rand.Rand, ws []c04Weighted) string {
@@ -719,27 +740,41 @@ func c04CheckClaims(req *http.Request, custom map[string]any) (bad string) {
 // one gate = one (secret, prevSecret) configuration + a way to send a request
 
 type c04JwtGate struct {
-	layer  string
-	secret string
-	prev   string
-	obs    *c04Obs
+	// virtual, when set, makes the sequence runner advance the timex clock (which only
+	// Parser.history's reset reads) by the returned amount before some steps
+	virtual func(r *rand.Rand) time.Duration
+	layer   string
+	// wantCallback: an unauthorized callback is configured and must run once per rejection
+	wantCallback bool
+	secret       string
+	prev         string
+	obs          *c04Obs
 	// do sends one request with the given Authorization header (hasHdr=false: none)
 	do    func(auth string, hasHdr bool) (status int, err error)
 	close func()
 }
 
-func c04HandlerGate(secret, prev string, withCallback bool) *c04JwtGate {
+// callback: 0 none, 1 records and sets a header, 2 additionally answers itself (401 + body),
+// the way the repository's own test callback does.
+func c04HandlerGate(secret, prev string, callback int) *c04JwtGate {
 	obs := &c04Obs{}
 	var opts []handler.AuthorizeOption
 	if prev != "" {
 		opts = append(opts, handler.WithPrevSecret(prev))
 	}
-	if withCallback {
+	if callback > 0 {
 		opts = append(opts, handler.WithUnauthorizedCallback(func(w http.ResponseWriter, r *http.Request, err error) {
 			obs.mu.Lock()
 			obs.cb++
+			if err == nil {
+				obs.cb += 1000 // the callback must be told why
+			}
 			obs.mu.Unlock()
 			w.Header().Set("X-C04-Unauthorized", "1")
+			if callback == 2 {
+				w.WriteHeader(http.StatusUnauthorized)
+				_, _ = w.Write([]byte("denied"))
+			}
 		}))
 	}
 	h := handler.Authorize(secret, opts...)(obs.inner())
@@ -751,6 +786,37 @@ func c04HandlerGate(secret, prev string, withCallback bool) *c04JwtGate {
 			}
 			rec := httptest.NewRecorder()
 			h.ServeHTTP(rec, req)
+			return rec.Code, nil
+		}}
+}
+
+// c04ParserGate drives token.Parser.ParseToken itself (the mechanism Authorize relies on)
+// with a custom reset duration: "admitted" = nil error and tok.Valid, the two things
+// Authorize looks at; the claims are handed to the observation through a context the
+// same way Authorize does it, so the common checker can be used.
+func c04ParserGate(secret, prev string, reset time.Duration) *c04JwtGate {
+	obs := &c04Obs{}
+	p := token.NewParser(token.WithResetDuration(reset))
+	inner := obs.inner()
+	return &c04JwtGate{layer: "parser", secret: secret, prev: prev, obs: obs, close: func() {},
+		do: func(auth string, hasHdr bool) (int, error) {
+			req := httptest.NewRequest(http.MethodGet, "http://localhost/c04/parser", http.NoBody)
+			if hasHdr {
+				req.Header.Set("Authorization", auth)
+			}
+			rec := httptest.NewRecorder()
+			tok, err := p.ParseToken(req, secret, prev)
+			if err != nil || tok == nil || !tok.Valid {
+				rec.WriteHeader(http.StatusUnauthorized)
+				return rec.Code, nil
+			}
+			ctx := req.Context()
+			if mc, ok := tok.Claims.(jwt.MapClaims); ok {
+				for k, v := range mc {
+					ctx = context.WithValue(ctx, k, v)
+				}
+			}
+			inner(rec, req.WithContext(ctx))
 			return rec.Code, nil
 		}}
 }
@@ -772,6 +838,9 @@ func c04EngineGate(secret, prev string) (*c04JwtGate, error) {
 	srv, err := c04NewServer(WithUnauthorizedCallback(func(w http.ResponseWriter, r *http.Request, err error) {
 		obs.mu.Lock()
 		obs.cb++
+		if err == nil {
+			obs.cb += 1000
+		}
 		obs.mu.Unlock()
 	}))
 	if err != nil {
@@ -783,6 +852,15 @@ func c04EngineGate(secret, prev string) (*c04JwtGate, error) {
 	} else {
 		opt = WithJwtTransition(secret, prev)
 	}
+	// a middleware added with Use sits behind the auth gate (counted, not asserted)
+	srv.Use(func(next http.HandlerFunc) http.HandlerFunc {
+		return func(w http.ResponseWriter, r *http.Request) {
+			obs.mu.Lock()
+			obs.mw++
+			obs.mu.Unlock()
+			next(w, r)
+		}
+	})
 	srv.AddRoutes([]Route{
 		{Method: http.MethodGet, Path: "/c04/jwt/:id", Handler: obs.inner()},
 		{Method: http.MethodPost, Path: "/c04/jwt/:id", Handler: obs.inner()},
@@ -793,7 +871,7 @@ func c04EngineGate(secret, prev string) (*c04JwtGate, error) {
 	ts := httptest.NewServer(srv.router)
 	client := ts.Client()
 	n := 0
-	return &c04JwtGate{layer: "engine", secret: secret, prev: prev, obs: obs,
+	return &c04JwtGate{layer: "engine", wantCallback: true, secret: secret, prev: prev, obs: obs,
 		close: func() { ts.Close() },
 		do: func(auth string, hasHdr bool) (int, error) {
 			n++
@@ -837,6 +915,12 @@ func c04RunJwtSequence(m *vk.M, idx int, g *c04JwtGate, classes []string, r *ran
 			idx, g.layer, step, g.secret, g.prev, c.Class, c.Auth, len(h), strings.Join(h, ","))
 	}
 	for step, cls := range classes {
+		if g.virtual != nil {
+			if d := g.virtual(r); d > 0 {
+				timex.VerifAdvance(d)
+				m.Count("jwt."+g.layer+".virtual_clock_jumps", 1)
+			}
+		}
 		now := time.Now().Unix()
 		c := c04GenJwt(r, cls, g.secret, g.prev, now)
 		want, custom, why := c04VerifyJWT(c.Auth, c.HasHdr, g.secret, g.prev, now)
@@ -852,6 +936,16 @@ func c04RunJwtSequence(m *vk.M, idx int, g *c04JwtGate, classes []string, r *ran
 			return false
 		}
 		ran, req, _, cb := g.obs.snapshot()
+		if g.layer == "engine" {
+			g.obs.mu.Lock()
+			mw := g.obs.mw
+			g.obs.mu.Unlock()
+			if mw > 0 && ran == 0 {
+				m.Count("jwt.engine.use_middleware_ran_for_rejected_request(not asserted)", 1)
+			} else if mw > 0 {
+				m.Count("jwt.engine.use_middleware_ran_with_handler", 1)
+			}
+		}
 		sig := "C04:jwt:" + g.layer + ":"
 		m.Count("jwt."+g.layer+".requests", 1)
 		m.Count("jwt.class."+c.Class, 1)
@@ -907,6 +1001,13 @@ func c04RunJwtSequence(m *vk.M, idx int, g *c04JwtGate, classes []string, r *ran
 				m.Violate(sig+"reject-status-not-401:"+c.Class, desc(step, c), "rejected (%s) with status %d, want 401", why, status)
 				return false
 			}
+			if g.wantCallback && cb != 1 {
+				m.Violate(sig+"unauthorized-callback-not-called-once:"+c.Class, desc(step, c), "request rejected (%s) but the configured unauthorized callback ran %d times (1000+ = called with a nil error)", why, cb)
+				return false
+			}
+			if g.wantCallback {
+				m.Count("jwt."+g.layer+".unauthorized_callback_calls", 1)
+			}
 			m.Count("jwt."+g.layer+".rejected_401", 1)
 		default:
 			m.Count("jwt.unasserted."+why, 1)
@@ -952,8 +1053,33 @@ func c04JwtLayer(t *testing.T, layer string, gates, seqMin, seqMax int) {
 			}
 		}
 		var g *c04JwtGate
+		if layer == "handler" || layer == "parser" {
+			// the virtual timex clock is read by nothing here except Parser.history's reset
+			timex.VerifFakeClock(time.Duration(1+r.Intn(1000)) * time.Second)
+		}
 		if layer == "handler" {
-			g = c04HandlerGate(secret, prev, idx%2 == 0)
+			g = c04HandlerGate(secret, prev, idx%3)
+			g.wantCallback = idx%3 != 0
+			if idx%2 == 1 { // jump past the 24 h history reset now and then
+				g.virtual = func(r *rand.Rand) time.Duration {
+					switch r.Intn(40) {
+					case 0:
+						return 25 * time.Hour
+					case 1:
+						return time.Duration(1+r.Intn(23)) * time.Hour
+					}
+					return 0
+				}
+			}
+		} else if layer == "parser" {
+			reset := []time.Duration{time.Millisecond, time.Second, time.Minute, 24 * time.Hour}[r.Intn(4)]
+			g = c04ParserGate(secret, prev, reset)
+			g.virtual = func(r *rand.Rand) time.Duration {
+				if r.Intn(6) == 0 {
+					return time.Duration(1+r.Intn(3000)) * reset / 1000 * time.Duration(1+r.Intn(3))
+				}
+				return 0
+			}
 		} else {
 			var err error
 			if g, err = c04EngineGate(secret, prev); err != nil {
@@ -964,6 +1090,7 @@ func c04JwtLayer(t *testing.T, layer string, gates, seqMin, seqMax int) {
 		n := seqMin + r.Intn(seqMax-seqMin+1)
 		ok := c04RunJwtSequence(m, idx, g, c04JwtSequence(r, n), r, &st)
 		g.close()
+		timex.VerifRealClock()
 		m.Count("jwt."+layer+".gates", 1)
 		if prev != "" {
 			m.Count("jwt."+layer+".gates_with_prev_secret", 1)
@@ -984,6 +1111,12 @@ func c04JwtLayer(t *testing.T, layer string, gates, seqMin, seqMax int) {
 // TestVerifC04JwtHandler: handler.Authorize called directly.
 func TestVerifC04JwtHandler(t *testing.T) {
 	c04JwtLayer(t, "handler", vk.N(60, 1200), 50, 500)
+}
+
+// TestVerifC04JwtParser: token.Parser.ParseToken with WithResetDuration under a virtual
+// clock, so that the history is wiped in the middle of the sequences.
+func TestVerifC04JwtParser(t *testing.T) {
+	c04JwtLayer(t, "parser", vk.N(12, 240), 50, 400)
 }
 
 // TestVerifC04JwtEngine: WithJwt / WithJwtTransition routes as composed by
